@@ -90,6 +90,23 @@ def run(ctx):
     selftest(ctx, rows)
     for x in rows[:1] + rows[700:701]:
         ev.sample(brief(x))
+    # (1b) the mechanisms through their Start/Step/Get bundles on a fixed family of fragmentings (as the
+    #      appendix tests do; the complete fragment families are C10's business)
+    import suites
+    sp = ctx.path("steps.ndjson")
+    rc, _, err = vlib.run_harness(drv, ["steps"], stdin=suites.steps_cmds(ctx, tier), out_path=sp, env=env, timeout=900)
+    srows = [json.loads(l) for l in open(sp) if l.strip().endswith("}")]
+    if rc != 0:
+        ctx.violation("steps-crash:" + crash_site(err), "belt bundle crashed on a legal fragment script: %s" % err[-1500:], err[-4000:])
+    n, bad, r = vlib.validate_lines(ctx, "Trace_Belt", srows, timeout=1500)
+    if n < len(srows):
+        ctx.note_inconclusive("steps: TLC evaluated %d of %d lines" % (n, len(srows)))
+    for i in bad:
+        row = srows[i - 1]
+        ctx.violation("steps:%s:%s" % (row["b"], row["script"]), "bundle %s with fragments %s differs from the value the standard defines" % (row["b"], row["script"]), {"line": row})
+    total += n
+    distinct |= set("steps:%s:%s" % (x["b"], x["script"]) for x in srows)
+    ev.cov["bundle_scripts_validated"] = n
     # (2) FMT
     fmt = ctx.path("fmt.ndjson")
     rc, _, err = vlib.run_harness(drv, ["fmt", tier], out_path=fmt, env=env, timeout=1800)
